@@ -78,6 +78,9 @@ func (u *Unit) newFrame(fn *ssa.Function, c *Contract, depth int) *Frame {
 
 func funcDisplayName(fn *ssa.Function) string {
 	s := fn.RelString(nil)
+	if strings.HasPrefix(fn.Name(), "init#") {
+		s = strings.Replace(s, fn.Name(), funcKey(fn), 1)
+	}
 	s = strings.ReplaceAll(s, "github.com/zmap/zlint/v3/", "")
 	s = strings.ReplaceAll(s, "github.com/zmap/zlint/v3", "zlint")
 	return s
@@ -476,14 +479,14 @@ func (f *Frame) locOf(v ssa.Value) *Loc {
 		return nil
 	}
 	el := pt.Elem()
-	if _, isStruct := el.Underlying().(*types.Struct); isStruct {
-		return &Loc{Arr: "", Key: x.T, Typ: el} // whole-struct location
-	}
-	arr, sort := f.u.cellArr(el)
 	local := false
 	if al, ok := v.(*ssa.Alloc); ok && !f.escaped[al] {
 		local = true
 	}
+	if _, isStruct := el.Underlying().(*types.Struct); isStruct {
+		return &Loc{Arr: "", Key: x.T, Typ: el, Local: local} // whole-struct location
+	}
+	arr, sort := f.u.cellArr(el)
 	return &Loc{Arr: arr, Sort: sort, Key: x.T, Typ: el, Local: local}
 }
 
@@ -657,7 +660,7 @@ func (f *Frame) instr(in ssa.Instruction, st *state) {
 		ln := f.val(x.Len).T
 		f.check(st, "makeslice", "(>= "+ln+" 0)", in, "makeslice: len out of range")
 		a := u.hget(st.heap, arr)
-		u.hset(st.heap, arr, sto(a, r, fmt.Sprintf("((as const (Array Int %s)) %s)", u.D.SortOf(t.Elem()), u.D.Zero(t.Elem()))))
+		u.hset(st.heap, arr, sto(a, r, u.D.ConstArray("Int", u.D.SortOf(t.Elem()), u.D.Zero(t.Elem()))))
 		f.setDef(x, fmt.Sprintf("(mk-slice %s 0 %s)", r, ln))
 	case *ssa.MakeClosure:
 		r := u.alloc(st.heap, x.Name())
@@ -668,6 +671,12 @@ func (f *Frame) instr(in ssa.Instruction, st *state) {
 		f.sliceOp(x, st)
 	case *ssa.Range:
 		f.vals[x] = Val{T: f.val(x.X).T, Typ: x.Type()}
+		if mt, ok := x.X.Type().Underlying().(*types.Map); ok {
+			// ghost: the set of keys already produced by this iteration
+			name := f.visitedName(x)
+			u.scalar(name, "(Array "+u.D.SortOf(mt.Key())+" Bool)")
+			u.hset(st.heap, name, u.D.ConstArray(u.D.SortOf(mt.Key()), "Bool", "false"))
+		}
 	case *ssa.Next:
 		f.next(x, st)
 	case *ssa.Defer:
@@ -836,11 +845,20 @@ func (f *Frame) binop(x *ssa.BinOp, st *state) {
 		return
 	}
 	switch x.Op {
-	case token.EQL:
-		f.setDef(x, eq(a.T, b.T))
-		return
-	case token.NEQ:
-		f.setDef(x, not(eq(a.T, b.T)))
+	case token.EQL, token.NEQ:
+		t := eq(a.T, b.T)
+		if _, isSlice := x.X.Type().Underlying().(*types.Slice); isSlice {
+			// slices are only comparable with nil: a slice is nil iff it has no backing array
+			o := a.T
+			if c, ok := x.X.(*ssa.Const); ok && c.Value == nil {
+				o = b.T
+			}
+			t = "(= (sl.base " + o + ") 0)"
+		}
+		if x.Op == token.NEQ {
+			t = not(t)
+		}
+		f.setDef(x, t)
 		return
 	}
 	switch srt {
@@ -1024,6 +1042,10 @@ func (f *Frame) convert(x *ssa.Convert, st *state) {
 		el := from.(*types.Slice).Elem()
 		res := u.fresh("gs.of", "Str")
 		if b, ok := el.Underlying().(*types.Basic); ok && b.Kind() == types.Uint8 {
+			// the specification-level observer of a byte slice's contents
+			sob := u.D.Fun("spec:strOfBytes", []string{"Slice"}, "Str")
+			u.emit("(assert (= " + res + " " + app(sob, v.T) + "))")
+			u.note("string(bytes) equals strOfBytes(slice value): byte slices are assumed not to be mutated between observations")
 			u.emit(fmt.Sprintf("(assert (= (gs.len %s) (sl.len %s)))", res, v.T))
 			arr, _ := u.elemArr(el)
 			a := u.hget(st.heap, arr)
@@ -1192,9 +1214,41 @@ func (f *Frame) next(x *ssa.Next, st *state) {
 	mt := rng.X.Type().Underlying().(*types.Map)
 	m := f.val(rng.X).T
 	dom, val := u.mapArrs(mt)
-	k := u.fresh("next.k", u.D.SortOf(mt.Key()))
+	ks := u.D.SortOf(mt.Key())
+	k := u.fresh("next.k", ks)
 	v := u.define("next.v", u.D.SortOf(mt.Elem()), sel(sel(u.hget(st.heap, val), m), k))
-	u.emit(fmt.Sprintf("(assert (=> %s (and (not (= %s 0)) %s)))", ok, m, sel(sel(u.hget(st.heap, dom), m), k)))
+	// Go's map iteration yields every key exactly once (the map is not modified while
+	// ranging over it in the code under contract): ok => a key not seen before;
+	// !ok => every key has been seen
+	vn := f.visitedName(rng)
+	u.scalar(vn, "(Array "+ks+" Bool)")
+	vis := u.hget(st.heap, vn)
+	d := sel(u.hget(st.heap, dom), m)
+	u.emit(fmt.Sprintf("(assert (=> %s (and (not (= %s 0)) %s (not %s))))", ok, m, sel(d, k), sel(vis, k)))
+	u.emit(fmt.Sprintf("(assert (=> (not %s) (forall ((x %s)) (! (=> (and (not (= %s 0)) (select %s x)) (select %s x)) :pattern ((select %s x))))))", ok, ks, m, d, vis, d))
+	u.emit(fmt.Sprintf("(assert (forall ((x %s)) (! (=> (select %s x) (and (not (= %s 0)) (select %s x))) :pattern ((select %s x)))))", ks, vis, m, d, vis))
+	u.hset(st.heap, vn, ite(ok, sto(vis, k, "true"), vis))
 	u.wellFormedLoaded(st.heap, v, mt.Elem())
 	f.vals[x] = Val{Typ: x.Type(), Tup: []Val{{T: ok, Typ: tup.At(0).Type()}, {T: k, Typ: mt.Key()}, {T: v, Typ: mt.Elem()}}}
+}
+
+func (f *Frame) visitedName(r *ssa.Range) string {
+	return fmt.Sprintf("$g.vis:%s:%s", f.fname, r.Name())
+}
+
+// rangeOfLoop finds the map Range instruction iterated by loop ordinal n.
+func (f *Frame) rangeOfLoop(n int) *ssa.Range {
+	for h, ord := range f.loopOrd {
+		if ord != n {
+			continue
+		}
+		for _, in := range f.fn.Blocks[h].Instrs {
+			if nx, ok := in.(*ssa.Next); ok {
+				if r, ok := nx.Iter.(*ssa.Range); ok {
+					return r
+				}
+			}
+		}
+	}
+	return nil
 }
